@@ -2,12 +2,14 @@ import TinsModel.Wire.App.TheoremsFixed
 import TinsModel.Wire.App.TheoremsRtp
 import TinsModel.Wire.App.TheoremsDhcp
 import TinsModel.Wire.App.TheoremsDhcpv6
+import TinsModel.Wire.App.TheoremsCodec
 /-
   Per-layer theorems of the App family for the four wire properties (C01 parse_safe, C02 writesOnly, C03 reparse,
   C04 codec inverses).  This module only gathers the per-class files (it is what `Props/C01..C04` import):
     TheoremsFixed   — ARP, VXLAN, STP, BootP (fixed headers)
     TheoremsRtp     — RTP (CSRC list, extension header, padding trailer)
     TheoremsDhcp    — DHCP (TLV options, cached `size_`)
-    TheoremsDhcpv6  — DHCPv6 (TLV options, cached `options_size_`, typed option codecs)
+    TheoremsDhcpv6  — DHCPv6 (TLV options, cached `options_size_`)
+    TheoremsCodec   — C04: option look-up after add/remove, typed option codecs of DHCP and DHCPv6
   Every theorem is listed with `#print axioms` in lean/Audit/WireApp.lean.
 -/
